@@ -31,9 +31,9 @@ func TestVerifSim(t *testing.T) {
 		Real: []string{"pkg/gateway/core.Server (onOpen/onData inbound buffering, auth gate, async send executor, DrainSends, Stop, close paths)",
 			"pkg/gateway/protocol/wkproto.Adapter behind a pass-through recording tap", "pkg/protocol/codec (frame codec, all versions 1-6)",
 			"pkg/gateway/session", "pkg/workqueue ShardedMailbox / BoundedPool on ants", "pkg/gateway.NewWKProtoAuthenticator (encryption disabled)",
-			"internal/access/gateway.Handler (in a third of the runs) incl. per-session sendack ordering", "timers via synctest fake clock"},
+			"internal/access/gateway.Handler (in 40% of the runs) incl. per-session sendack ordering", "timers via synctest fake clock"},
 		Stub: []string{"transport.Factory/Listener/Conn (per-connection actor, chunk splits, coalescing, reset, half-close, bounded non-blocking outbound buffer = back-pressure)",
-			"clients (real codec for encoding, tape-driven bursts)", "SendBatch/frame handler with parked calls (two thirds of the runs)",
+			"clients (real codec for encoding, tape-driven bursts)", "SendBatch/frame handler with parked calls (60% of the runs)",
 			"message/presence/delivery use-case ports behind the real access handler", "gateway Observer used as a per-frame scheduling gate"},
 		Rule: "One run = one synctest bubble with one real core.Server, 1-6 client connections on a simulated transport, a tape-driven handler. " +
 			"C28 non-trivial = at least one SENDACK written AND (a fault fired OR two sessions had handler calls in flight together OR a drain/stop ran). " +
@@ -48,8 +48,7 @@ func TestVerifSim(t *testing.T) {
 }
 
 var classProp = map[string]string{
-	"panic": "*",
-	"decode-progress-on-incomplete": "C23", "decode-frames-mismatch": "C23", "handler-frames-mismatch": "C23", "clean-stream-rejected": "C23",
+	"panic": "*", "decode-progress-on-incomplete": "C23", "decode-frames-mismatch": "C23", "handler-frames-mismatch": "C23", "clean-stream-rejected": "C23",
 	"decode-error-not-closed": "C23", "decode-invalid-step": "C23", "decode-mutated-input": "C23", "read-beyond-buffer": "C23", "client-stream-mismatch": "C23",
 	"direct-progress-on-incomplete": "C23", "direct-frames-mismatch": "C23", "direct-error-on-clean": "C23", "direct-unstable-prefix": "C23",
 	"direct-invalid-step": "C23", "direct-payload-aliases-input": "C23", "direct-mutated-input": "C23",
@@ -212,14 +211,14 @@ type engine struct {
 	drainActive int
 	drainStep   int // step of the first DrainSends call (0 = none)
 	drainDoneOK bool
-	hSendsAtDrainDone int
+	drainDoneAt int // handler-seen SENDs when DrainSends first returned nil
 	idles       int
 	acksTotal   int
 	overlapSeen bool
 	splitSeen   bool
 	handlerSeen int
-	extraSend   map[int]int
 	kills       int
+	quiet       bool
 }
 
 func runWorld(t *testing.T, r *simkit.Run) {
@@ -232,7 +231,7 @@ func runWorld(t *testing.T, r *simkit.Run) {
 		"idle_ms": c.IdleTimeout.Milliseconds(), "final_drain": c.FinalDrain}
 	simkit.Bubble(t, r, func() {
 		q := &gworld{r: r, w: simkit.NewWorld(r), cfg: c, codec: codec.New(), listeners: map[string]*simListener{}, conns: map[int]*simConn{}}
-		e := &engine{q: q, extraSend: map[int]int{}}
+		e := &engine{q: q}
 		defer e.teardown()
 		if !e.setup() {
 			return
@@ -440,7 +439,7 @@ func (e *engine) workDone() bool {
 			return false
 		}
 		stuckAuth := cl.auth && cl.connectSent && cl.gotConnack && !cl.connackOK
-		if (cl.planLeft > 0 && !stuckAuth) || len(cl.sock) > 0 || cl.pendingOut() > 0 {
+		if (cl.planLeft > 0 && !stuckAuth && !e.quiet) || len(cl.sock) > 0 || cl.pendingOut() > 0 {
 			return false
 		}
 	}
@@ -524,7 +523,7 @@ func (e *engine) collect() []simkit.Action {
 		}
 		busy := conn.busy.Load()
 		// client writes more frames into its socket
-		if !e.final && !cl.closeSent && !cl.closed && cl.planLeft > 0 && len(cl.sock) < 4096 && cl.maySend() {
+		if !e.final && !e.quiet && !cl.closeSent && !cl.closed && cl.planLeft > 0 && len(cl.sock) < 4096 && cl.maySend() {
 			acts = append(acts, simkit.Action{Prio: 0, Key: fmt.Sprintf("csend c%d", k), Weight: 3, Do: func() { e.doClientSend(cl, faults) }})
 		}
 		if !busy && !cl.closeSent && !cl.closed && len(cl.sock) > 0 {
@@ -574,7 +573,11 @@ func (e *engine) collect() []simkit.Action {
 				if to == 300*time.Millisecond && c.overloadPossible() {
 					continue
 				}
-				acts = append(acts, simkit.Action{Prio: 6, Key: fmt.Sprintf("drain timeout=%v", to), Weight: 1, Do: func() { e.doDrain(to) }})
+				w := 1
+				if to > 0 && parkedByKind["batch"]+parkedByKind["ubatch"]+parkedByKind["umid"] > 0 {
+					w = 3 // a drain whose context expires while SEND work is parked
+				}
+				acts = append(acts, simkit.Action{Prio: 6, Key: fmt.Sprintf("drain timeout=%v", to), Weight: w, Do: func() { e.doDrain(to) }})
 			}
 		}
 		if c.FStop {
@@ -757,6 +760,12 @@ func (e *engine) doDrain(timeout time.Duration) {
 	}
 	if !e.final {
 		q.r.Fault("drain_sends")
+		if !e.quiet && q.r.Tape.Weighted([]int{1, 2}) == 1 {
+			// clients learn about the maintenance and stop sending: their sessions
+			// stay open, so everything admitted before the drain must be answered
+			e.quiet = true
+			q.r.Logf("  clients stop sending new frames")
+		}
 	}
 	srv := e.srv
 	go func() {
@@ -943,6 +952,7 @@ func (e *engine) doClientSend(cl *client, faults bool) {
 				kind = []int{int(frame.SEND), int(frame.PING), int(frame.RECVACK), int(frame.SUB), int(frame.DISCONNECT)}[tp.Weighted([]int{sb * 2, 3, 3, 0, 0})]
 				if faults && tp.Chance(1, 30) {
 					kind = []int{int(frame.SUB), int(frame.DISCONNECT), int(frame.EVENT)}[tp.Intn(3)]
+					cl.unsupportedSent = true
 				}
 			} else {
 				kind = []int{int(frame.SEND), int(frame.PING), int(frame.RECVACK), int(frame.SUB), int(frame.DISCONNECT), int(frame.CONNECT), int(frame.EVENT), int(frame.PONG)}[tp.Weighted([]int{sb * 2, 3, 3, 2, 1, 1, 1, 1})]
@@ -1131,7 +1141,7 @@ func (e *engine) observe() {
 				}
 				if !e.drainDoneOK {
 					e.drainDoneOK = true
-					e.hSendsAtDrainDone = e.totalHSends()
+					e.drainDoneAt = e.totalHSends()
 				}
 				q.r.Probe("drain_completed")
 			} else {
@@ -1142,8 +1152,8 @@ func (e *engine) observe() {
 			q.r.Logf("  stop returned err=%v", a.err)
 		}
 	}
-	if e.drainDoneOK && e.totalHSends() > e.hSendsAtDrainDone {
-		q.fail("dispatch-after-drain-complete", "", fmt.Sprintf("a SEND reached the handler after DrainSends had returned nil (%d -> %d)", e.hSendsAtDrainDone, e.totalHSends()), nil)
+	if e.drainDoneOK && e.totalHSends() > e.drainDoneAt {
+		q.fail("dispatch-after-drain-complete", "", fmt.Sprintf("a SEND reached the handler after DrainSends had returned nil (%d -> %d)", e.drainDoneAt, e.totalHSends()), nil)
 	}
 }
 
@@ -1401,6 +1411,12 @@ func (e *engine) observeConn(cl *client, step int) {
 		q.r.Logf("  c%d closed reason=%q notified=%v", k, why, hClose > 0)
 		if why != "" {
 			q.r.Probe("close_" + why)
+			if why == string(gatewaytypes.CloseReasonHandlerError) && q.cfg.HandlerMode == 2 && !q.cfg.RecvackFails && !cl.unsupportedSent &&
+				q.r.Faults["handler_error_batch"]+q.r.Faults["usecase_result_missing"]+q.r.Faults["handler_error_frame"]+q.r.Faults["handler_error_open"]+q.r.Faults["handler_error_activate"] == 0 {
+				// nothing failed in this session's own handling: it shared a SEND
+				// micro-batch with a session whose SENDACK could not be written
+				q.r.Probe("closed_because_batch_peer_write_failed")
+			}
 		} else {
 			q.r.Probe("close_before_open_notification")
 		}
@@ -1582,5 +1598,3 @@ func (e *engine) finalDrain() {
 	}
 	e.settle(200)
 }
-
-var _ = strings.Join
